@@ -210,7 +210,7 @@ def jobs(tier, seed):
         E.worker_init()
     out = []
     for opc, last, name, rel8 in branch_rows():
-        for ps in ((), (0x66,), (0x67,), (0x2E,), (0x3E,), (0x66, 0x67)) if tier == 'thorough' else ((), (0x66,)):
+        for ps in ((), (0x66,), (0x67,), (0x2E,), (0x3E,), (0x66, 0x67)) if tier == 'thorough' else ((), (0x66,), (0x67,)):
             out.append(('arith', tuple(ps), opc, last, name, rel8))
     for ej in E.make_jobs(tier, seed, prefix_sets=[()] if tier == 'quick' else [(), (0x66,), (0xF3,)], sib='min' if tier == 'quick' else 'reps', per_signature=(tier == 'quick')):
         out.append(('class', ej))
